@@ -341,6 +341,54 @@ def rule_line_range(ctx, F):
             ctx.bad("T6", "utf16_len:sums-len_utf16-over-lossy-chars", "utf16_len no longer sums char::len_utf16 over LossyUtf8 chunks")
 
 
+def rule_ignored(ctx, F):
+    """I1: a placeholder never leaves the iterator.  A match with an @ignore capture is queued as Tag::ignored (range
+    usize::MAX..usize::MAX, empty line range) so that it can cancel a real tag for the same name; every exit that hands out
+    a tag taken from the queue must have tested is_ignored() on it — also the final drain when the matches are exhausted."""
+    from rsrules import calls_named, text_gate, deep_text, some_ret_points
+    fn = next_fn(F)
+    if fn is None:
+        return
+    outs = []
+    for pt in some_ret_points(fn):
+        a = [x for x in own_walk(fn.blocks[pt[0]].elems[pt[1]]["e"]) if x.get("k") == "assign"][0]
+        t = deep_text(fn, a["r"], user=True)
+        if "Result::Ok" in t and "tag_queue" in t:
+            outs.append(pt)
+    ctx.floor("exits of TagsIter::next that return a queued tag", len(outs), 2)
+    text_gate(ctx, "I1", fn, outs, [("a queued tag is returned only after is_ignored() said no", [(("is_ignored(",), False)])], accept_desc="returning a tag taken from the queue")
+
+
+def rule_cache_one_line(ctx, F):
+    """I2: the per-line cache describes one line.  It is keyed by the row of the name's *end* position but its line range
+    and UTF-16 column were computed for the line on which the name *starts*; the two agree only for a name that does not
+    span lines.  So a LineInfo built from span.end may be stored only when start and end row were found equal (or the
+    cache is left empty otherwise)."""
+    from rsrules import text_gate, deep_text
+    fn = next_fn(F)
+    if fn is None:
+        return
+    aggs = [(pt, x) for pt, e in fn.points() for x in own_walk(e) if x.get("k") == "agg" and "LineInfo" in str(x.get("adt"))]
+    if not aggs:
+        ctx.bad("I2", "next:line-cache-one-line", "TagsIter::next no longer builds a LineInfo for its per-line cache")
+        return
+    need = []
+    for pt, x in aggs:
+        flds = {f["f"]: deep_text(fn, f["e"], user=False) for f in x.get("fields", [])}
+        if ".end" in flds.get("utf8_position", "") :
+            need.append(pt)
+    if not need:
+        ctx.ok("I2", "next:line-cache-one-line", "the cache is keyed by the same position its line range was computed for")
+        return
+    text_gate(ctx, "I2", fn, need, [("a cache entry keyed by the name's end is stored only for a name that starts and ends on the same row", [((".row", " == ", ".row"), True), ((".row", " != ", ".row"), False)])],
+              accept_desc="building the cache entry from the name's end position")
+
+
+def next_fn(F):
+    c = [f for f in F.fn_list if f.name.startswith("<TagsIter") and f.name.endswith("::next")]
+    return c[0] if c else None
+
+
 def rule_fresh_parse(ctx, F):
     """R1: every document is tagged from its own parse.  A TagsContext keeps one Parser; a run that was cancelled while
     parsing leaves an outstanding parse in it, and the next parse call would *resume* it against the new text.  So on
@@ -368,6 +416,8 @@ def run(ctx):
     rule_line_range(ctx, F)
     rule_docs(ctx, F)
     rule_fresh_parse(ctx, F)
+    rule_ignored(ctx, F)
+    rule_cache_one_line(ctx, F)
     return ctx.finish(
         "Value-flow rules over rustc MIR of tree-sitter-tags (TagsIter::next, line_range, utf16_len): which node and which positions each field of a Tag and of the "
         "per-line cache is computed from, the gates on using the cache and on dropping a tag, and the bounds of the line window. "
